@@ -1,4 +1,4 @@
-//@@ unit props=C16,C10,C03,C14,C07,C19,C06 rlimit=200
+//@@ unit props=C16,C10,C03,C14,C07,C19,C06,C11 rlimit=200
 // Unit xlsbwb: the workbook-level record loops of the xlsb reader (src/xlsb/mod.rs): read_workbook, read_styles,
 // read_shared_strings, worksheet_cells_reader, worksheet_formula -- verbatim text, against the ghost byte-stream model of unit xlsbrec.
 #![allow(unused_imports, dead_code, unused_variables, unused_mut, unused_assignments)]
@@ -1450,12 +1450,12 @@ pub open spec fn strs(v: Seq<String>) -> Seq<Seq<char>> { v.map_values(|s: Strin
 // the method touches RS only through the ZipArchive stand-in, so by parametricity the instance stands for all RS.
 pub struct VerifRs { _opaque: u8 }
 impl Xlsb<VerifRs> {
-//@@ fn src/xlsb/mod.rs Xlsb::read_workbook props=C16,C03,C14,C10 entry ret=r
+//@@ fn src/xlsb/mod.rs Xlsb::read_workbook props=C16,C03,C14,C10,C11 entry ret=r
 //@@ sig
     ensures
         //# C16.workbook_part_missing
         part_bytes(old(self).zip, wb_path()) is None ==> r is Err,
-        //# C16,C10.wbprop_1904
+        //# C16,C10,C11.wbprop_1904
         ({ let w = wb1(part_bytes(old(self).zip, wb_path())->Some_0, WbSt { is_1904: old(self).is_1904, sheets: Seq::empty() }, relationships@);
            part_bytes(old(self).zip, wb_path()) is Some && w is Done && r is Ok ==> final(self).is_1904 == w->st.is_1904 }),
         //# C16.bundle_sheets_in_order
@@ -1514,7 +1514,7 @@ impl Xlsb<VerifRs> {
                 //# C16.sheet_list_scan_in_step
                 wb1(s0, st0, rels) is Malformed || wb1(s0, st0, rels) == wb1(cur, st, rels),
             invariant
-                //# C16,C10.date_system_in_step
+                //# C16,C10,C11.date_system_in_step
                 wb1(s0, st0, rels) is Malformed || self.is_1904 == st.is_1904,
                 //# C16.sheet_lists_in_step
                 wb1(s0, st0, rels) is Malformed || sheets_ok(self.metadata.sheets@.skip(m0), self.sheets@.skip(n0), st.sheets),
@@ -1565,7 +1565,7 @@ impl Xlsb<VerifRs> {
                     proof {
                         lemma_bit0(buf@[0]);
                         // BrtWbProp: f1904 is bit 0 of the first flag byte
-                        //# C16,C10.wbprop_f1904_bit
+                        //# C16,C10,C11.wbprop_f1904_bit
                         assert(self.is_1904 == (rec_payload(h)[0] % 2 == 1));
                         st = WbSt { is_1904: rec_payload(h)[0] % 2 == 1, ..st };
                     }
@@ -1743,7 +1743,7 @@ verif_rel_get(relationships, \g<1>)
 //@@ replace /&buf\[0\] &/ Verus has no `BitAnd<u8> for &u8` (std: `&a & b` is `*a & b`); same index, same operand
 buf[0] &
 //@@ end
-//@@ fn src/xlsb/mod.rs Xlsb::worksheet_cells_reader props=C07,C16,C03,C10 entry ret=r
+//@@ fn src/xlsb/mod.rs Xlsb::worksheet_cells_reader props=C07,C16,C03,C10,C11 entry ret=r
 //@@ sig
     ensures
         // an unknown sheet name is an error, not some other sheet (exact match)
@@ -1756,7 +1756,7 @@ buf[0] &
             && r->Ok_0.src() == (ReaderSrc { bytes: part_bytes(old(self).v_zip(), old(self).v_sheets()[i].1@)->Some_0, formats: old(self).v_formats(),
                 strings: old(self).v_strings(), extern_sheets: old(self).v_extern(), names: old(self).v_names(), is_1904: old(self).v_1904() }),
         // the workbook's date-system flag is what every cell reader gets
-        //# C16,C10.date_system_flag_reaches_reader
+        //# C16,C10,C11.date_system_flag_reaches_reader
         r is Ok ==> r->Ok_0.src().is_1904 == old(self).v_1904(),
         //# C07.reader_streams_are_functions_of_source
         r is Ok ==> r->Ok_0.formulas() == XlsbCellsReader::formulas_of(r->Ok_0.src()) && r->Ok_0.fend() == XlsbCellsReader::fend_of(r->Ok_0.src()),
